@@ -1076,6 +1076,18 @@ def stage_persist(rep, rng, n):
     return bad
 
 
+# builtins that take an explicit output name: the name is also given with a directory part and - the documented form for a
+# target that belongs next to the submodule's directory - with a leading ../
+NAMED_OUTPUTS = [
+    ('copy_file', "copy_file('{n}out.txt', 'data.txt')"),
+    ('build_step', "build_step('{n}gen.txt', cmd=['touch', 'gen.txt'])"),
+    ('object_file', "object_file('{n}obj', 'x.c')"),
+    ('executable', "executable('{n}prog', ['x.c'])"),
+    ('static_library', "static_library('{n}st', ['x.c'])"),
+    ('shared_library', "shared_library('{n}sh', ['x.c'])"),
+]
+NAME_VARIANTS = [('nested', 'o d/'), ('parent', '../'), ('parent-nested', '../o d/')]
+
 OUTPUT_BUILTINS = [
     ('copy_file', "copy_file('out.txt', 'data.txt')"),
     ('copy_file-noname', "copy_file(file='data.txt')"),
@@ -1110,8 +1122,12 @@ def stage_output_builtins(rep, depth=2):
                 f.write("submodule(%r)\n" % chain[1])
         open(os.path.join(sub, 'x.c'), 'w').write('int main(void) { return 0; }\n')
         open(os.path.join(sub, 'data.txt'), 'w').write('x\n')
+        cases = [(name, expr, '') for name, expr in OUTPUT_BUILTINS] + \
+                [('%s-%s' % (name, vn), expr.format(n=pre.replace('o d', 'o d %d' % k)), pre.replace('o d', 'o d %d' % k))
+                 for k, (name, expr) in enumerate(NAMED_OUTPUTS) for vn, pre in NAME_VARIANTS]
+        cases = [(n_, e_.replace('{n}', ''), p_) for n_, e_, p_ in cases]
         with open(os.path.join(sub, FN_BUILD), 'w') as f:
-            for name, expr in OUTPUT_BUILTINS:
+            for name, expr, _pre in cases:
                 f.write("try:\n    _rec('outb', %r, repr(%s.path))\nexcept Exception as e:\n"
                         "    _rec('outb', %r, 'exception ' + type(e).__name__ + ': ' + str(e))\n" % (name, expr, name))
         env = make_env(src, bld)
@@ -1121,12 +1137,14 @@ def stage_output_builtins(rep, depth=2):
             build.configure_build(env)
         finally:
             os.chdir(cwd)
-        want = '`$(builddir)/' + '/'.join(chain) + '/'
         seen = {}
         for r in _STATE['log']:
             if r[2] == 'outb':
                 seen[r[3]] = r[4]
-        for name, expr in OUTPUT_BUILTINS:
+        import posixpath
+        for name, expr, pre in cases:
+            rel = posixpath.normpath('/'.join(chain + [pre, 'x'])).rsplit('/', 1)[0] if pre else '/'.join(chain)
+            want = '`$(builddir)/' + (rel + '/' if rel not in ('', 'x') else '')
             got = seen.get(name, 'no record')
             rep.case('outb:%s:%d' % (name, depth), True)
             rep.count('outb:' + ('ok' if got.startswith(want) else 'elsewhere'))
@@ -1137,7 +1155,7 @@ def stage_output_builtins(rep, depth=2):
                          classes=('output-not-relative:' + name.split('-')[0],))
     finally:
         shutil.rmtree(d, ignore_errors=True)
-    rep.stage('oracle:output-builtins', builtins=len(OUTPUT_BUILTINS), failures=bad)
+    rep.stage('oracle:output-builtins', builtins=len(cases), failures=bad)
     return bad
 
 
